@@ -93,13 +93,22 @@ h_quote.params_for = lambda fixed: {
 def h_quote_other(ival: int, fi: int):
     from penman import constant
     bound_int(ival, -3, 4)
-    bound_int(fi, 0, 4)
-    f = progs.pick(fi, [1.5, 0.0, -2.25, 1e22])
+    bound_int(fi, 0, 5)
+    # concrete by case split (a symbolic int used as a dict key inside
+    # quote() would trip CrossHair's subscript interception)
+    ival = progs.pick(ival + 3, [-3, -2, -1, 0, 1, 2, 3])
+    f = progs.pick(fi, [1.5, 0.0, -2.25, 1e22, 1.0])
     require(constant.quote(None) == '""', 'quote(None)')
     require(constant.quote(ival) == constant.quote(str(ival)), 'quote(int)')
     require(constant.quote(f) == constant.quote(str(f)), 'quote(float)')
     require(constant.evaluate(constant.quote(ival)) == str(ival),
             'a quoted number evaluates to its string form')
+    require(constant.evaluate(constant.quote(f)) == str(f),
+            'a quoted float evaluates to its string form')
+    # equal-but-different constants (1 / 1.0 / True-like) quote differently,
+    # in either order of the calls
+    require(constant.quote(ival) == constant.quote(str(ival)),
+            'quote(int) after quote(float)')
 
 
 def ref_evaluate(text):
@@ -330,7 +339,7 @@ def obligations(tier: str) -> List[dict]:
             'bound': 'unbounded length'},
            {'name': 'E2 quote of numbers and None', 'kind': 'e2',
             'fn': 'h_quote_other', 'fixed': {}, 'timeout': 120,
-            'bound': 'int in [-3,3], 4 floats'}]
+            'bound': 'int in [-3,3], 5 floats'}]
 
     def add(fn, n, timeout, marks=None, **fx):
         obs.append({'name': f'E2 {fn} n={n} {fx}', 'kind': 'e2', 'fn': fn,
